@@ -222,7 +222,7 @@ func init() {
 
 	// ---- sigbits ----
 	reg("fdb", func(a []string) string {
-		return showI32s(sigbits.FirstDiffBits(parseStrList(a[0])))
+		return retainI32s("fdb", sigbits.FirstDiffBits(parseStrList(a[0])))
 	})
 	reg("countprefixes", func(a []string) string {
 		sb := sigbits.New(parseStrList(a[0]))
